@@ -654,13 +654,28 @@ func extSortStrings(fr *frame, args []value) value {
 // ---------------------------------------------------------------- environment
 
 func extTimeNow(fr *frame, args []value) value {
-	return zero(fr.i.prog.ImportedPackage("time").Type("Time").Type())
+	t := zero(fr.i.prog.ImportedPackage("time").Type("Time").Type()).(structure)
+	x := fr.i.x
+	if !x.symClock {
+		return t
+	}
+	// environment: an arbitrary non-decreasing instant (seconds since year 1 in ext, no monotonic reading, UTC)
+	x.nclock++
+	now := x.fresh(fmt.Sprintf("clock#%d", x.nclock), sBV64, "int64")
+	lo := bvLit(63000000000, 64) // about year 1997 .. 2300: keeps Unix() arithmetic far from overflow
+	hi := bvLit(72000000000, 64)
+	x.perm("(assert (and (bvsge " + now.e + " " + lo + ") (bvsle " + now.e + " " + hi + ")))")
+	if x.lastClock != "" {
+		x.perm("(assert (bvsge " + now.e + " " + x.lastClock + "))")
+	}
+	x.lastClock = now.e
+	t[0] = uint64(0) // wall
+	t[1] = now       // ext
+	return t
 }
 
 func extTimeSubNative(fr *frame, args []value) value {
-	if containsSym(args[0]) || containsSym(args[1]) {
-		panic(unsupported("time.Time.Sub on symbolic instants"))
-	}
+	// durations are only logged by the code under test (engine, IndexVariables): an arbitrary constant
 	return int64(0)
 }
 
